@@ -232,6 +232,16 @@ func (r *Report) Finish() int {
 	if len(viol) > 0 {
 		return 1
 	}
+	if inc > 0 && inc*50 <= len(r.Outcomes) {
+		// tolerated (at most 2% of the cases), but never silent
+		n := 0
+		for _, o := range r.Outcomes {
+			if o.Status == "inconclusive" && n < 3 {
+				fmt.Printf("  note: case %d inconclusive: %.400s\n", o.Idx, o.Detail)
+				n++
+			}
+		}
+	}
 	if len(r.Outcomes) == 0 || inc*50 > len(r.Outcomes) {
 		fmt.Printf("INCONCLUSIVE property=%s: %d of %d cases inconclusive\n", r.Prop, inc, len(r.Outcomes))
 		for _, o := range r.Outcomes {
